@@ -170,6 +170,16 @@ Proof.
   intros t Ht. rewrite forallb_forall in B3. apply memN_In. auto.
 Qed.
 
+(* same-target retries stay on the shard *)
+Lemma fiber_check_shards p idem cl0 down c frs r :
+  fiber_check p idem cl0 down c frs = Some r -> shards_ok down frs = true.
+Proof.
+  unfold fiber_check. destruct (fiber p idem cl0 (c_plan c) (c_outs c)) as [tr r'].
+  destruct (match_frames (c_free c) (attempts tr) frs && seq_ok frs && shards_ok down frs
+            && forallb (fun t => memN t down) (conn_fail_targets tr)) eqn:B; [|discriminate].
+  intros _. apply andb_true_iff in B as [B _]. now apply andb_true_iff in B as [_ B].
+Qed.
+
 Lemma plan_wf_spec nodes plan : plan_wf nodes plan = true -> NoDup plan /\ incl plan nodes.
 Proof.
   unfold plan_wf. intros H. apply andb_true_iff in H as [H1 H2]. split; [now apply nodupb_NoDup|].
@@ -424,7 +434,9 @@ Lemma multi_sound p idem cl0 nodes down max cs assign frs :
        exists tr r, fiber p idem cl0 (c_plan c) (c_outs c) = (tr, r)
                     /\ match_frames (c_free c) (attempts tr) (sub_frames i assign frs) = true
                     /\ seq_ok (sub_frames i assign frs) = true
-                    /\ (forall t, In t (conn_fail_targets tr) -> In t down).
+                    /\ (forall t, In t (conn_fail_targets tr) -> In t down)
+                    /\ shards_ok down (sub_frames i assign frs) = true
+                    /\ fiber_check p idem cl0 down c (sub_frames i assign frs) = Some r.
 Proof.
   unfold multi_ok. intros H.
   apply andb_true_iff in H as [H _]. apply andb_true_iff in H as [H H6].
@@ -440,7 +452,8 @@ Proof.
   assert (Hs : is_some (fiber_check p idem cl0 down c (sub_frames i assign frs)) = true).
   { apply H6. exists (i, c). split; [reflexivity|exact Hin]. }
   destruct (fiber_check p idem cl0 down c (sub_frames i assign frs)) as [r|] eqn:E; [|discriminate].
-  destruct (fiber_check_Some _ _ _ _ _ _ _ E) as [tr Htr]. exists tr, r. exact Htr.
+  destruct (fiber_check_Some _ _ _ _ _ _ _ E) as [tr [Ha [Hb [Hc Hd]]]]. exists tr, r.
+  repeat split; try assumption. exact (fiber_check_shards _ _ _ _ _ _ _ E).
 Qed.
 
 (* the gate: a request that is not idempotent (or a profile without a speculative policy) is only
@@ -487,7 +500,9 @@ Lemma e2e_fibers p spec cl0 nodes down cs assign frs tret o co max :
        exists tr r, fiber p true cl0 (c_plan c) (c_outs c) = (tr, r)
                     /\ match_frames (c_free c) (attempts tr) (sub_frames i assign frs) = true
                     /\ seq_ok (sub_frames i assign frs) = true
-                    /\ (forall t, In t (conn_fail_targets tr) -> In t down).
+                    /\ (forall t, In t (conn_fail_targets tr) -> In t down)
+                    /\ shards_ok down (sub_frames i assign frs) = true
+                    /\ fiber_check p true cl0 down c (sub_frames i assign frs) = Some r.
 Proof.
   intros H ->.
   exact (multi_sound _ _ _ _ _ _ _ _ _ (e2e_check_open _ _ _ _ _ _ _ _ _ _ _ _ _ H eq_refl)).
@@ -722,27 +737,30 @@ Lemma timeout_sound p idem spec cl0 nodes down cs assign frs t0 tmo tret margin 
        exists tr r, fiber p idem cl0 (c_plan c) (c_outs c) = (tr, r)
                     /\ match_frames (c_free c) (attempts tr) (sub_frames i assign frs) = true
                     /\ seq_ok (sub_frames i assign frs) = true
-                    /\ (forall t, In t (conn_fail_targets tr) -> In t down))
+                    /\ (forall t, In t (conn_fail_targets tr) -> In t down)
+                    /\ shards_ok down (sub_frames i assign frs) = true
+                    /\ (gate_open idem spec = None -> fiber_finished c r = false))
   /\ (List.length frs <= frame_bound p (1 + max) (List.length nodes))%nat
   /\ t0 + tmo <= tret
   /\ (forall f, In f frs -> f_arr f <= tret + margin).
 Proof.
   unfold check_timeout. intros H. cbv zeta.
-  apply andb_true_iff in H as [H H3]. apply andb_true_iff in H as [H1 H2].
+  apply andb_true_iff in H as [H H4]. apply andb_true_iff in H as [H H3].
+  apply andb_true_iff in H as [H1 H2].
   destruct (multi_sound _ _ _ _ _ _ _ _ _ H1) as [Ha [Hb [Hc Hd]]].
-  split; [assumption|]. split; [assumption|]. split; [assumption|]. split; [assumption|].
-  split; [eapply multi_bound; eassumption|]. split; [now apply N.leb_le|].
-  intros f Hf. rewrite forallb_forall in H3. apply N.leb_le. auto.
-Qed.
-
-(* same-target retries stay on the shard *)
-Lemma fiber_check_shards p idem cl0 down c frs r :
-  fiber_check p idem cl0 down c frs = Some r -> shards_ok down frs = true.
-Proof.
-  unfold fiber_check. destruct (fiber p idem cl0 (c_plan c) (c_outs c)) as [tr r'].
-  destruct (match_frames (c_free c) (attempts tr) frs && seq_ok frs && shards_ok down frs
-            && forallb (fun t => memN t down) (conn_fail_targets tr)) eqn:B; [|discriminate].
-  intros _. apply andb_true_iff in B as [B _]. now apply andb_true_iff in B as [_ B].
+  split; [assumption|]. split; [assumption|]. split; [assumption|]. split.
+  - intros i c Hi. destruct (Hd i c Hi) as [tr [r [Hf [Hm [Hs [Hcf [Hsh Hfc]]]]]]].
+    exists tr, r. repeat split; try assumption.
+    intros Hg. rewrite Hg in H4. rewrite forallb_forall in H4.
+    pose proof (indexed_from_nth cs 0 i c Hi) as Hin. cbn in Hin.
+    specialize (H4 (i, c, fiber_check p idem cl0 down c (sub_frames i assign frs))).
+    unfold fiber_results in H4. rewrite in_map_iff in H4.
+    assert (Hx : match fiber_check p idem cl0 down c (sub_frames i assign frs) with
+                 | Some r0 => negb (fiber_finished c r0) | None => false end = true).
+    { apply H4. exists (i, c). split; [reflexivity|exact Hin]. }
+    rewrite Hfc in Hx. now apply negb_true_iff.
+  - split; [eapply multi_bound; eassumption|]. split; [now apply N.leb_le|].
+    intros f Hf. rewrite forallb_forall in H3. apply N.leb_le. auto.
 Qed.
 
 Lemma shards_ok_pair down pre f g post :
